@@ -1184,6 +1184,13 @@ def io_cases(run, pool, snaps):
                 fl[rng.randrange(2)] = rng.choice([x for x in (0, 1, 3) if x != fl[0]])
             fs = ["filter %d %d" % (t, f) for t, f in zip(IO_TYPES, fl)] + (["filter 19 0"] if rng.random() < 0.5 else [])
             cases.append(("io-full", (snap, comps, fenv, fs, rng.choice([0, 1, 128, 8]), [])))
+        # a CPU that loses its topology directory (no PU for it, still in the complete cpuset and in local_cpus masks)
+        # with every I/O type kept: one rotating CPU in the quick tier, every CPU in the thorough tier
+        tops = [p for p in rem if re.search(r"sys/devices/system/cpu/cpu\d+/topology$", p)]
+        if tops:
+            sel = [tops[(run.seed + k) % len(tops)] for k in range(2)] if quick else tops
+            for p in sorted(set(sel)):
+                cases.append(("io-removal", (snap, comps, env, ["filter 16 0", "filter 17 0", "filter 18 0"], 0, [p])))
         classes = {}
         for p in iorem:
             classes.setdefault(class_of(p), []).append(p)
